@@ -79,6 +79,7 @@ type c07job struct {
 	cases []*c07case
 	other []refMismatch // reference-only comparisons (no Coq case)
 	wraps []*c07wrapCase
+	disps []*c07dispCase
 	count map[string]int
 	evals int
 	refs  int
@@ -114,6 +115,19 @@ func c07exports(extra map[string]reflect.Value) interp.Exports {
 		m[k] = v
 	}
 	return interp.Exports{"host/host": m}
+}
+
+// c07newAt: a fresh interpreter with the standard library and one more host package.
+func c07newAt(key string, syms map[string]reflect.Value) *c07run {
+	i := interp.New(interp.Options{Stdout: io.Discard, Stderr: io.Discard})
+	r := &c07run{i: i}
+	if err := i.Use(stdlib.Symbols); err != nil {
+		r.failed = "use:" + err.Error()
+	}
+	if err := i.Use(interp.Exports{key: syms}); err != nil {
+		r.failed = "use:" + err.Error()
+	}
+	return r
 }
 
 func c07new(extra map[string]reflect.Value) *c07run {
@@ -974,6 +988,7 @@ func runC07(args []string) error {
 	seed := fs.Uint64("seed", envSeed(), "seed")
 	dump := fs.Bool("dump", false, "print every case whose observation differs from the reference")
 	show := fs.Int("show", 0, "print the script of this case id")
+	enum := fs.Bool("enum", false, "exploration: run the whole parameter space of the embedded-interface stream and print the outcomes")
 	child := fs.Int("child", -1, "internal: run only this scenario and print what the host observed")
 	fs.Parse(args)
 	if err := os.MkdirAll(*out, 0o755); err != nil {
@@ -984,6 +999,10 @@ func runC07(args []string) error {
 	nReg := 3
 	if *tier == "thorough" {
 		nA, nB, nReg = 6000, 5000, 30
+	}
+	if *enum {
+		h.enumE()
+		return nil
 	}
 	root := newRng(*seed)
 	var jobs []*c07job
@@ -1060,10 +1079,20 @@ func runC07(args []string) error {
 		}
 	}
 	for _, j := range jobs {
+		for _, d := range j.disps {
+			if g := fmt.Sprint(d.e.gDispatch()); d.failed || d.infail || fmt.Sprint(d.impl) != g || fmt.Sprint(d.inscript) != g {
+				bad++
+				if *dump {
+					fmt.Printf("---- disp region=%q %s impl=%v failed=%v inscript=%v ref=%s\n", d.region, d.e.key(), d.impl, d.failed, d.inscript, g)
+				}
+			}
+		}
+	}
+	for _, j := range jobs {
 		for _, m := range j.other {
 			bad++
 			if *dump {
-				fmt.Printf("---- other region=%q kind=%v\n  impl: %q\n  ref:  %q\n", m.Region, m.Input.(map[string]any)["kind"], m.Impl, m.Ref)
+				fmt.Printf("---- other region=%q kind=%v %v\n  impl: %q\n  ref:  %q\n", m.Region, m.Input.(map[string]any)["kind"], m.Note, m.Impl, m.Ref)
 			}
 		}
 	}
